@@ -1,6 +1,7 @@
 import Rare.Drv.Expr
 import Rare.Drv.C11F64
 import Rare.Model.C11Case
+import Rare.Model.C11Log
 /-!
 C11, round 4 ops (see `harness/corr/c11r4.go`):
 
@@ -13,8 +14,9 @@ C11, round 4 ops (see `harness/corr/c11r4.go`):
 namespace Rare.Drv.C11R4
 open Rare Rare.Expr Rare.Proto
 
-/-- The C11 registry: the standard table with the full-Unicode `upper` / `lower` in front. -/
-def registry : Registry := mkRegistry (Rare.C11.Case.table ++ stdTable) Gen.stdFunctionNames
+/-- The C11 registry: the standard table with the full-Unicode `upper` / `lower` and the modelled
+    `ln` / `log10` / `log2` / `pow` (`Rare/Model/C11Log.lean`) in front. -/
+def registry : Registry := mkRegistry (Rare.C11.Case.table ++ Rare.C11.Log.table ++ stdTable) Gen.stdFunctionNames
 
 def val (b : Bytes) : String := s!"ok val={Hex.enc b}"
 
